@@ -745,7 +745,8 @@ namespace occa {
   }
 
   primitive primitive::rightShift(const primitive &a, const primitive &b) {
-    const int retType = (a.type > b.type) ? a.type : b.type;
+    // The result has the type of the left operand
+    const int retType = a.type;
     switch(retType) {
       case primitiveType::bool_   : return primitive(a.to<bool>()     >> b.to<bool>());
       case primitiveType::int8_   : return primitive(a.to<int8_t>()   >> b.to<int8_t>());
@@ -764,7 +765,8 @@ namespace occa {
   }
 
   primitive primitive::leftShift(const primitive &a, const primitive &b) {
-    const int retType = (a.type > b.type) ? a.type : b.type;
+    // The result has the type of the left operand
+    const int retType = a.type;
     switch(retType) {
       case primitiveType::bool_   : return primitive(a.to<bool>()     << b.to<bool>());
       case primitiveType::int8_   : return primitive(a.to<int8_t>()   << b.to<int8_t>());
@@ -943,7 +945,8 @@ namespace occa {
   }
 
   primitive& primitive::rightShiftEq(primitive &a, const primitive &b) {
-    const int retType = (a.type > b.type) ? a.type : b.type;
+    // The result has the type of the left operand
+    const int retType = a.type;
     switch(retType) {
       case primitiveType::bool_   : a = (a.to<bool>()     >> b.to<bool>());     break;
       case primitiveType::int8_   : a = (a.to<int8_t>()   >> b.to<int8_t>());   break;
@@ -962,7 +965,8 @@ namespace occa {
   }
 
   primitive& primitive::leftShiftEq(primitive &a, const primitive &b) {
-    const int retType = (a.type > b.type) ? a.type : b.type;
+    // The result has the type of the left operand
+    const int retType = a.type;
     switch(retType) {
       case primitiveType::bool_   : a = (a.to<bool>()     << b.to<bool>());     break;
       case primitiveType::int8_   : a = (a.to<int8_t>()   << b.to<int8_t>());   break;
